@@ -737,6 +737,15 @@ class Signature:
             if d.kind == "assign" and isinstance(d.value, ast.Call) and (dotted(d.value.func) or "").startswith("np.") \
                     and d.var not in local_arrays and not d.var.startswith("$v"):
                 local_arrays.append(d.var)
+        # locally constructed objects (class instances) keep their identity: they are named, never duplicated
+        objects = []
+        for d in flow.defs:
+            if d.kind == "assign" and isinstance(d.value, ast.Call) and ((dotted(d.value.func) or "?").split(".")[-1][:1].isupper()) \
+                    and d.var not in objects and d.var not in local_arrays and not d.var.startswith("$v") and \
+                    sum(1 for dd in flow.defs if dd.var == d.var and dd.kind != "mutate") == 1:
+                objects.append(d.var)
+        self.objects = {f"$o{i}" for i in range(len(objects))}
+        fn = _Rename({v: f"$o{i}" for i, v in enumerate(objects)}).visit(fn)
         fn = _Rename({v: f"$a{i}" for i, v in enumerate(local_arrays)}).visit(fn)
         self.fn = fn
         fi = _fi(fn)
@@ -752,7 +761,7 @@ class Signature:
         self.trace.append(fact)
 
     def _canon(self, e: ast.AST, at: ast.AST, keep: set[str] = frozenset()) -> str:
-        stop = set(self.loopvars) | set(keep)
+        stop = set(self.loopvars) | set(keep) | self.objects
         ex = self.flow.expand(e, self.flow.node_for(at), stop=stop)
         return PolyEnv().poly(ex).canon() if not isinstance(ex, (ast.Tuple,)) else "(" + ", ".join(
             PolyEnv().poly(x).canon() for x in ex.elts) + ")"
@@ -760,7 +769,7 @@ class Signature:
     def _target(self, t: ast.AST, at: ast.AST) -> str:
         if isinstance(t, ast.Subscript):
             penv = PolyEnv()
-            ex = self.flow.expand(t, self.flow.node_for(at), stop=self.loopvars)
+            ex = self.flow.expand(t, self.flow.node_for(at), stop=set(self.loopvars) | self.objects)
             return penv.atom_name(ex)
         return norm(t)
 
